@@ -392,6 +392,16 @@ class C21(Mode):
                             a = it.acct
                             obs.append(['attr', 'Item', it._pkval_, 'acct', ('E', a._pkval_)])
                             rec_attr(a, 'name')
+                    elif op == 'card':
+                        # one-to-one, read from the side without the column
+                        o = A(st[1])
+                        if o is not None:
+                            rec_attr(o, 'card')
+                    elif op == 'card_acct':
+                        # ... and from the side with it (loading a card tells the account it names)
+                        cd = self.ns['Card'].get(code='c%d' % (st[2] % 4))
+                        if cd is not None:
+                            rec_attr(cd, 'acct')
                     elif op == 'flush':
                         flush()
                     elif op == 'commit':
@@ -440,6 +450,12 @@ class C21(Mode):
                         a = Acct.get(name=NAMES[st[2] % 3])
                         if i is not None and a is not None:
                             i.acct = a
+                    elif op == 'relink':
+                        # one-to-one: a card goes to another account (whose previous card is set free)
+                        cd = self.ns['Card'].get(code='c%d' % (st[2] % 4))
+                        a = Acct.get(name=NAMES[st[1] % 3])
+                        if cd is not None and a is not None:
+                            cd.acct = a
                     elif op == 'del_item':
                         i = Item.get(id=1 + st[1] % 6)
                         if i is not None:
